@@ -19,7 +19,7 @@ from ..digest import chunk_tables_digest, obj_digest
 TITLE = 'hits above MSA+buffer are inert, those below intact'
 EXPLORER = 'E1'
 CLAUSES = ['C07.class_equal', 'C07.below_intact', 'C07.flag_iff', 'C07.no_msa_no_crop', 'C07.nd_replacement',
-           'C07.exactly_at_limit', 'C07.flag_true', 'C07.flag_false']
+           'C07.exactly_at_limit', 'C07.flag_true', 'C07.flag_false', 'C07.big_scene', 'C07.big_scene_split']
 RULE = ('one case per micro table over a cell menu with hits below (L-500), exactly at L, and placeholders above '
         'L = 2000 ft (types 1, 2, 3 and VV); inside the case all re-valuations of the placeholders within '
         '{nextafter(L), L+500, L+9000} with <=1 deviation from a uniform choice, + the non-detection replacement, x '
@@ -74,11 +74,47 @@ def cases(tier):
             if C == 2 and cells[T:] < cells[:T]:
                 continue
             out.append({'shape': [C, T], 'cells': list(cells)})
+    for name in big_scenes():
+        out.append({'big': name})
     return out
 
 
 def weight(case):
+    if 'big' in case:
+        return 30
     return sum(1 for c in case['cells'] for e in (MENU[c] or []) if e[0] == 'A')
+
+
+def big_scenes():
+    """Scenes that reach merging, bundles and the mixture step (>= 30 hits per group) BELOW the limit, with higher-type hits above the limit
+    interleaved in the table: the later stages must not see whether those hits were ever there."""
+    from . import _deckfam
+    D = _deckfam.D
+    return {
+        'split': (D({'h': 1000., 'n': 60, 'pattern': 'bimodal400'}, T=60), {}),
+        'modes': (D({'h': 1000., 'n': 60, 'pattern': 'modes:125:125'}, T=60), {'MIN_SEP_VALS': [100, 1000]}),
+        'overlap': (D({'h': 1000., 'n': 40, 'pattern': 'rampup'}, {'h': 1210., 'n': 40, 'pattern': 'rampup'}), {}),
+        'two-ceilos-merge': (D({'h': 1000., 'n': 40}, {'h': 1240., 'n': 40}, ceilos=['a', 'b'], ceilo_offsets=[0., 20.]), {}),
+        'split-2c': (D({'h': 1000., 'n': 40, 'pattern': 'bimodal400'}, T=40, ceilos=['a', 'b'], ceilo_offsets=[0., 20.]), {}),
+    }
+
+
+def big_rows(name, value, every=4):
+    """Rows of a big scene (time-ordered, as a ceilometer network delivers them) with one extra hit of the next type at `value` ft for every
+    `every`-th measurement; value None -> those hits are absent."""
+    spec, _ = big_scenes()[name]
+    rows = scenes.reorder(scenes.build(spec), 'asc')
+    out, k = [], 0
+    by = {}
+    for r in rows:
+        by.setdefault((r[0], r[1]), []).append(r)
+    for key in sorted(by, key=lambda x: (x[1], x[0])):
+        meas = by[key]
+        out += meas
+        if k % every == 0 and value is not None and all(m[2] is not None for m in meas):
+            out.append([key[0], key[1], value, max(m[3] for m in meas) + 1])
+        k += 1
+    return out
 
 
 def realise(case, valuation, nd=False):
@@ -146,7 +182,50 @@ def data_rows(chunk):
     return sorted([tuple(r) for r in rows], key=lambda r: (r[0], r[1], r[3], -1.0 if r[2] is None else r[2]))
 
 
+def run_big(case):
+    res = {'n': 0, 'clauses': {}, 'digests': set(), 'violations': [], 'crashed': 0}
+
+    def hit(c):
+        res['clauses'][c] = res['clauses'].get(c, 0) + 1
+    name = case['big']
+    _, extra = big_scenes()[name]
+    for base in ({'MSA': 1800.0, 'MSA_HIT_BUFFER': 200.0, 'MAX_HITS_OKTA0': 3}, {'MSA': 2000.0, 'MSA_HIT_BUFFER': 0.0, 'MAX_HITS_OKTA0': 0}):
+        prms = {**base, **extra}
+        ref = None
+        for every in (4, 7):
+            for value in (A_VALUES[0], A_VALUES[1], A_VALUES[2], None):
+                rows = big_rows(name, value, every)
+                r = pipeline.run(rows, prms)
+                res['n'] += 1
+                if not r.ok:
+                    res['crashed'] += 1
+                    res['violations'].append({'clause': 'C07.class_equal', 'site': f'{r.exc_type}@{r.site}',
+                                              'detail': {'scene': name, 'above_limit_hits_at': value, 'every': every, 'prms': prms, 'raised': str(r.exc)[:200]}})
+                    continue
+                dig = obj_digest(chunk_tables_digest(r.chunk))
+                hit('C07.nd_replacement' if value is None else 'C07.class_equal')
+                hit('C07.big_scene')
+                if any(n > 1 for n in r.chunk.groups['ncomp'].tolist()):
+                    hit('C07.big_scene_split')
+                if ref is None:
+                    ref = (dig, value, every)
+                elif dig != ref[0]:
+                    res['violations'].append({'clause': 'C07.nd_replacement' if value is None else 'C07.class_equal', 'site': 'tables',
+                                              'detail': {'scene': name, 'prms': prms, 'run_a': {'above_limit_hits_at': ref[1], 'every': ref[2]},
+                                                         'run_b': {'above_limit_hits_at': value, 'every': every}, 'msgs_b': r.msgs,
+                                                         'what': 'tables differ although the two inputs differ only in higher-type hits above MSA+buffer'}})
+                hit('C07.below_intact')
+                if ref_crop([tuple(x) for x in rows], L) != data_rows(r.chunk):
+                    res['violations'].append({'clause': 'C07.below_intact', 'site': '_cleanup_pdf', 'detail': {'scene': name, 'above_limit_hits_at': value, 'prms': prms}})
+        res['digests'].add(ref[0] if ref else 'none')
+    res['digests'] = sorted(res['digests'])
+    res['sample'] = {'big_scene': name, 'runs': res['n']}
+    return res
+
+
 def run_case(case):
+    if 'big' in case:
+        return run_big(case)
     res = {'n': 0, 'clauses': {}, 'digests': set(), 'violations': [], 'crashed': 0}
     cl = res['clauses']
 
